@@ -811,6 +811,17 @@ class WorkflowConductor(object):
 
             task_state_entry["retry"]["count"] = count_value
 
+    def _fail_workflow_on_task_error(self):
+        # An error while processing a task event fails the workflow. A workflow that is already
+        # canceled, expired, or abandoned stays as is (same as on output rendering): the event is
+        # a late report, the error is logged by the caller, and the status change is not allowed.
+        if self.get_workflow_status() not in [
+            statuses.EXPIRED,
+            statuses.ABANDONED,
+            statuses.CANCELED,
+        ]:
+            self.request_workflow_status(statuses.FAILED)
+
     def add_task_state(self, task_id, route, in_ctx_idxs=None, prev=None):
         if not self.graph.has_task(task_id):
             raise exc.InvalidTask(task_id)
@@ -834,7 +845,7 @@ class WorkflowConductor(object):
             except Exception as e:
                 task_state_entry.pop("retry", None)
                 self.log_error(e, task_id=task_id, route=route)
-                self.request_workflow_status(statuses.FAILED)
+                self._fail_workflow_on_task_error()
 
         # Append the task state entry to the list of task execution.
         task_state_entry_id = constants.TASK_STATE_ROUTE_FORMAT % (task_id, str(route))
@@ -964,7 +975,7 @@ class WorkflowConductor(object):
             except Exception as e:
                 retry_requested = False
                 self.log_error(e, task_id=task_id, route=route)
-                self.request_workflow_status(statuses.FAILED)
+                self._fail_workflow_on_task_error()
 
             if retry_requested:
                 return self.update_task_state(task_id, route, events.TaskRetryEvent())
@@ -997,7 +1008,7 @@ class WorkflowConductor(object):
                     task_state_entry["next"][task_transition_id] = all(evaluated_criteria)
                 except Exception as e:
                     self.log_error(e, task_id, route, task_transition_id)
-                    self.request_workflow_status(statuses.FAILED)
+                    self._fail_workflow_on_task_error()
                     continue
 
                 # If criteria met, then mark the next task staged and calculate outgoing context.
@@ -1013,7 +1024,7 @@ class WorkflowConductor(object):
 
                     if errors:
                         self.log_errors(errors, task_id, route, task_transition_id)
-                        self.request_workflow_status(statuses.FAILED)
+                        self._fail_workflow_on_task_error()
                         continue
 
                     out_ctx_idxs = json_util.deepcopy(task_state_entry["ctxs"]["in"])
